@@ -12,4 +12,13 @@ for id in $ids; do
   b=$(PYTHONHASHSEED=12345 VERIF_KEEP_HASHSEED=1 VERIF_WORKERS=3 /venv/bin/python sim/check_main.py $id --runs $r --no-evidence 2>&1 | grep digest_of_digests)
   if [ -n "$a" ] && [ "$a" = "$b" ]; then echo "ok   $a (hashseed 0 / 16 workers == hashseed 12345 / 3 workers, $r runs)"; else echo "DIFF $id: '$a' vs '$b'"; bad=1; fi
 done
+# instrumented build (pre-emption at function-call granularity): the same comparison for the three thread-simulating checks
+if [ -n "$INSTR" ]; then
+  for id in C16 C17 C07; do
+    r=$runs; [ $id = C07 ] && r=$((runs / 10 + 5))
+    a=$(PYTHONHASHSEED=0 VERIF_WORKERS=16 /venv/bin/python sim/check_main.py $id --instr --runs $r --no-evidence 2>&1 | grep digest_of_digests)
+    b=$(PYTHONHASHSEED=12345 VERIF_KEEP_HASHSEED=1 VERIF_WORKERS=3 /venv/bin/python sim/check_main.py $id --instr --runs $r --no-evidence 2>&1 | grep digest_of_digests)
+    if [ -n "$a" ] && [ "$a" = "$b" ]; then echo "ok   $a (--instr, $r runs)"; else echo "DIFF $id --instr: '$a' vs '$b'"; bad=1; fi
+  done
+fi
 exit $bad
